@@ -26,6 +26,14 @@ CHECKS = {
    text="Explicit-state BFS over histories: after every step the reported counts (LCount, LRCount, STATE counters) equal a census of the engine's live structures and the reference model; every state is drained and must be empty. The same census/drain oracle runs on all concurrent scenarios of C01/C03/C04 under deviation-bounded schedule exploration.",
    note="Trusted: instrumenter+runtime, the census walker (in-package harness), RefLockDB for LCount/LRCount.",
    technique="explicit-state model checking by replay (canonical-state BFS) + deviation-bounded schedule DFS, census oracle"),
+ "C05": dict(level="exploration", design="4/C05",
+   text="Exhaustive enumeration of timeout classes (unit x T in 0..40 + boundaries x enqueue phase x interference) each executed on the real engine with its own sweepers on virtual time, bounds checked on virtual timestamps; plus deviation-bounded schedule exploration of unlock/cancel racing the sweeper on the deadline tick.",
+   note="Trusted: instrumenter+runtime; virtual time (zero-cost computation). Not all 65536 values of T, but every class the re-check ladder / long-wait table / millisecond wheel distinguishes.",
+   technique="bounded exhaustive enumeration of input classes on the implementation under virtual time + deviation-bounded schedule DFS"),
+ "C06": dict(level="exploration", design="4/C06",
+   text="As C05 for expiries: every E in 1..40 + boundaries in three units, grant phases, and interference patterns (queued request served at expiry, unlock before deadline, re-lock, updates, unlimited, 200 holds on one deadline); plus schedule exploration of unlock racing the expiry sweeper.",
+   note="Trusted: instrumenter+runtime; virtual time. Leader only (follower behaviour is C10).",
+   technique="bounded exhaustive enumeration of input classes on the implementation under virtual time + deviation-bounded schedule DFS"),
 }
 NA_DEFAULT = "check not built yet in this round (planned: see DESIGN.md section 4)"
 
